@@ -30,7 +30,8 @@ RULE = ("case = one of 6 strategies x series of 2..60 points (>= 40% tie-rich in
         " Also: averages handed over as float32 / float16, a second object of the same class constructed (and used) between construction and rfa(), a second rfa() on the same object after the caller modified the first result, explicit a together with alpha, coincidence value classes (near-ties with large adaptive smoothing)."
         " Round-4 classes: constructor call forms (documented positional order / by name), series of 1001..1800 averages."
         " Round-5 classes: a 'threads' kind - batches of 8 recreation requests on different data issued concurrently from 4 threads, each answer bit-identical to its sequential answer."
-        " Round-6 classes: RuntimeWarnings on ordinary input are violations (see C04).")
+        " Round-6 classes: RuntimeWarnings on ordinary input are violations (see C04)."
+        " Round-7 classes: an equal earlier request on another object whose answer was edited in place before the judged request.")
 REQUIRED_MONITORS = ["threads:rfa", "c05:intervals", "c05:constant_series", "c05:piecewise", "c05:cubic"]
 ASSUMPTIONS = ["parameters in the documented ranges; explicit a clamped to >= 2 as documented",
                "monotonicity for exponent < 0.132954 is a recorded known finding (K1), not asserted"]
